@@ -34,18 +34,18 @@ class TimePeriodConfig:
 
 def date_to_period(date_value: date, period_indicator: str) -> Any:
     if period_indicator == "A":
-        return TimePeriodHandler(f"{date_value.year}A")
+        return TimePeriodHandler(f"{date_value.year:04d}A")
     elif period_indicator == "S":
-        return TimePeriodHandler(f"{date_value.year}S{((date_value.month - 1) // 6) + 1}")
+        return TimePeriodHandler(f"{date_value.year:04d}S{((date_value.month - 1) // 6) + 1}")
     elif period_indicator == "Q":
-        return TimePeriodHandler(f"{date_value.year}Q{((date_value.month - 1) // 3) + 1}")
+        return TimePeriodHandler(f"{date_value.year:04d}Q{((date_value.month - 1) // 3) + 1}")
     elif period_indicator == "M":
-        return TimePeriodHandler(f"{date_value.year}M{date_value.month}")
+        return TimePeriodHandler(f"{date_value.year:04d}M{date_value.month}")
     elif period_indicator == "W":
         cal = date_value.isocalendar()
         return TimePeriodHandler(f"{cal[0]}W{cal[1]}")
     elif period_indicator == "D":  # Extract day of the year
-        return TimePeriodHandler(f"{date_value.year}D{date_value.timetuple().tm_yday}")
+        return TimePeriodHandler(f"{date_value.year:04d}D{date_value.timetuple().tm_yday}")
 
 
 def period_to_date(
@@ -73,9 +73,9 @@ def period_to_date(
         return date(year, period_number, day)
     if period_indicator == "W":
         week_day = 1 if start else 0
-        return dt.strptime(f"{year}-W{period_number}-{week_day}", "%G-W%V-%w").date()
+        return dt.strptime(f"{year:04d}-W{period_number}-{week_day}", "%G-W%V-%w").date()
     if period_indicator == "D":
-        return dt.strptime(f"{year}-D{period_number}", "%Y-D%j").date()
+        return dt.strptime(f"{year:04d}-D{period_number}", "%Y-D%j").date()
     raise RunTimeError("2-1-19-2", period=period_indicator)
 
 
@@ -187,14 +187,14 @@ class TimePeriodHandler:
 
     def __str__(self) -> str:
         if self.period_indicator == "A":
-            return f"{self.year}A"
+            return f"{self.year:04d}A"
         if self.period_indicator in ["W", "M"]:
             period_number_str = f"{self.period_number:02}"
         elif self.period_indicator == "D":
             period_number_str = f"{self.period_number:03}"
         else:
             period_number_str = str(self.period_number)
-        return f"{self.year}-{self.period_indicator}{period_number_str}"
+        return f"{self.year:04d}-{self.period_indicator}{period_number_str}"
 
     @staticmethod
     def _check_year(year: int) -> None:
@@ -245,7 +245,7 @@ class TimePeriodHandler:
             else:
                 if value > 365:
                     raise RunTimeError("2-1-19-9", day=value, year=self.year)
-                    # raise ValueError(f'Invalid day {value} for year {self.year}.')
+                    # raise ValueError(f'Invalid day {value} for year {self.year:04d}.')
         self._period_number = value
 
     @property
@@ -353,8 +353,8 @@ class TimePeriodHandler:
     def vtl_representation(self) -> str:
         """VTL representation: YYYY, YYYYSn, YYYYQn, YYYYMm, YYYYWw, YYYYDd (no hyphens)."""
         if self.period_indicator == "A":
-            return f"{self.year}"
-        return f"{self.year}{self.period_indicator}{self.period_number}"
+            return f"{self.year:04d}"
+        return f"{self.year:04d}{self.period_indicator}{self.period_number}"
 
     def sdmx_gregorian_representation(self) -> str:
         """SDMX Gregorian representation: YYYY, YYYY-MM, YYYY-MM-DD.
@@ -363,9 +363,9 @@ class TimePeriodHandler:
         Raises RunTimeError for Semester (S), Quarter (Q), and Week (W).
         """
         if self.period_indicator == "A":
-            return f"{self.year}"
+            return f"{self.year:04d}"
         if self.period_indicator == "M":
-            return f"{self.year}-{self.period_number:02}"
+            return f"{self.year:04d}-{self.period_number:02}"
         if self.period_indicator == "D":
             d = period_to_date(self.year, "D", self.period_number)
             return d.isoformat()
@@ -378,21 +378,21 @@ class TimePeriodHandler:
         """SDMX Reporting representation: YYYY-A1, YYYY-Ss, YYYY-Qq, YYYY-Mmm, YYYY-Www,
         YYYY-Dddd."""
         if self.period_indicator == "A":
-            return f"{self.year}-A1"
+            return f"{self.year:04d}-A1"
         if self.period_indicator in ["W", "M"]:
             period_number_str = f"{self.period_number:02}"
         elif self.period_indicator == "D":
             period_number_str = f"{self.period_number:03}"
         else:
             period_number_str = str(self.period_number)
-        return f"{self.year}-{self.period_indicator}{period_number_str}"
+        return f"{self.year:04d}-{self.period_indicator}{period_number_str}"
 
     def natural_representation(self) -> str:
         """Natural representation: YYYY, YYYY-Sx, YYYY-Qx, YYYY-MM, YYYY-Wxx, YYYY-MM-DD."""
         if self.period_indicator == "A":
-            return f"{self.year}"
+            return f"{self.year:04d}"
         if self.period_indicator == "M":
-            return f"{self.year}-{self.period_number:02}"
+            return f"{self.year:04d}-{self.period_number:02}"
         if self.period_indicator == "D":
             d = period_to_date(self.year, "D", self.period_number)
             return d.isoformat()
@@ -400,7 +400,7 @@ class TimePeriodHandler:
             period_number_str = f"{self.period_number:02}"
         else:
             period_number_str = str(self.period_number)
-        return f"{self.year}-{self.period_indicator}{period_number_str}"
+        return f"{self.year:04d}-{self.period_indicator}{period_number_str}"
 
     def external_representation(self) -> str:
         """Return the representation based on the configured TimePeriodConfig."""
@@ -631,18 +631,18 @@ def date_to_period_str(date_value: date, period_indicator: str) -> Any:
         date_value = check_max_date(date_value)
         date_value = date.fromisoformat(date_value[:10])
     if period_indicator == "A":
-        return f"{date_value.year}A"
+        return f"{date_value.year:04d}A"
     elif period_indicator == "S":
-        return f"{date_value.year}S{((date_value.month - 1) // 6) + 1}"
+        return f"{date_value.year:04d}S{((date_value.month - 1) // 6) + 1}"
     elif period_indicator == "Q":
-        return f"{date_value.year}Q{((date_value.month - 1) // 3) + 1}"
+        return f"{date_value.year:04d}Q{((date_value.month - 1) // 3) + 1}"
     elif period_indicator == "M":
-        return f"{date_value.year}M{date_value.month}"
+        return f"{date_value.year:04d}M{date_value.month}"
     elif period_indicator == "W":
         cal = date_value.isocalendar()
         return f"{cal[0]}W{cal[1]}"
     elif period_indicator == "D":  # Extract day of the year
-        return f"{date_value.year}D{date_value.timetuple().tm_yday}"
+        return f"{date_value.year:04d}D{date_value.timetuple().tm_yday}"
 
 
 def interval_to_period_str(interval_value: str) -> Optional[str]:
